@@ -466,7 +466,12 @@ with eval_formula (fuel : nat) (st : state) (cl : cell) (i : item) {struct fuel}
               | (Err k, st3) => (Err k, rollback_frame st3 0)
               | (OutOfFuel, st3) => (OutOfFuel, st3)
               end
-            else (Val v, pop_frame st2)
+            else
+              (* the None check applies to uncached cells as well (fix 008a3ab) *)
+              match v with
+              | VNone => if cl_allow_none cl then (Val v, pop_frame st2) else (Err KNone, rollback_frame st2 0)
+              | _ => (Val v, pop_frame st2)
+              end
         | (Err k, st2, ln) => (Err k, rollback_frame st2 ln)
         | (OutOfFuel, st2, _) => (OutOfFuel, st2)
         end
